@@ -1,37 +1,230 @@
-"""C15 -- Built-in key types order correctly and separators are valid (DESIGN.md section 5, C15)."""
+"""C15 -- Built-in key types order correctly and separators are valid (DESIGN.md section 5, C15).
+
+S1  coq/Props/C15.v (+ Types/KeyTypes*.v, Types/Utf8*.v): roundtrip, compare = value order, total order,
+    separator / branch_separator validity, routing, fixed_width, min_encoded_key -- for every kty by induction.
+S2  harness/src/bin/c15.rs runs the real crate on generated pairs of ~70 monomorphised key types;
+    ocaml/c15_driver.ml (extracted model) computes the same outputs from the VALUES; bytes compared exactly.
+S3  the property itself on the implementation's outputs (driver mode `oracle`): value order (vcompare,
+    proved a total order) and has_type from the model as specification, everything else from the
+    implementation: from_bytes(as_bytes v) = v, compare = value order both ways, the separator
+    decodes (impl from_bytes) to a value sv of the type with as_bytes(sv) = separator, lo <= sv < hi
+    by value AND by Key::compare, no longer than lo (and exactly fixed_width for branch_separator).
+Decision: S3 failure -> concrete VIOLATION (replay = that pair).  Only model<->impl difference ->
+directed search around the differing type (20x budget) -> still none -> no-failing-input-found.
+"""
+import json
 import os
 import re
+import shutil
+import time
+
+TRUSTED = ["Coq 8.16.1 kernel + vm_compute (Examples)", "tools/gen_consts.py (no C15 constant is used)",
+           "harness/src/bin/c15.rs (generators, derived Ord on the value enum to pick the separator's argument order, "
+           "text rendering of values)",
+           "extraction (ExtrOcamlBasic only) + ocaml/c15_driver.ml (parsers, oracle glue)",
+           "redb::verif::branch_separator hook (one-line wrapper)"]
+
+
+def _lines(ctx, name):
+    with open(os.path.join(ctx.workdir, name)) as f:
+        l = f.read().split("\n")
+    while l and l[-1] == "":
+        l.pop()
+    return l
+
+
+_DRIVER = {}
+
+
+def _driver(ctx, infile, outfile, mode):
+    """ctx.driver, but the extraction + OCaml build (which takes the shared coq lock) happens once per check."""
+    import subprocess
+    import vlib
+    if "exe" not in _DRIVER:
+        exe, out = vlib.ocaml_driver("c15")
+        if exe is None:
+            return None, out[-3000:]
+        _DRIVER["exe"] = exe
+    with open(os.path.join(ctx.workdir, infile)) as fi, open(os.path.join(ctx.workdir, outfile), "w") as fo:
+        try:
+            p = subprocess.run(["bash", "-c", 'ulimit -s unlimited 2>/dev/null; exec "$0" "$@"', _DRIVER["exe"], mode],
+                               stdin=fi, stdout=fo, stderr=subprocess.PIPE, timeout=3000, cwd=ctx.workdir)
+        except subprocess.TimeoutExpired:
+            return 124, "driver timeout"
+    return p.returncode, p.stderr.decode(errors="replace")[-2000:]
+
+
+def run_batch(ctx, tag, args, seed=None):
+    """Run harness + model + oracle for one batch. Returns dict or raises RuntimeError(detail)."""
+    old_seed = ctx.seed
+    if seed is not None:
+        ctx.seed = seed
+    try:
+        rc, out = ctx.harness("c15", args)
+    finally:
+        ctx.seed = old_seed
+    if rc != 0:
+        raise RuntimeError("harness failed rc=%s: %s" % (rc, (out or "")[-1500:]))
+    m = re.search(r"cases=(\d+) distinct_nontrivial=(\d+) types=(\d+) markers=(\S*)", out)
+    if not m:
+        raise RuntimeError("harness output not understood: %s" % out[-500:])
+    stats = {"cases": int(m.group(1)), "distinct_nontrivial": int(m.group(2)), "types": int(m.group(3)),
+             "markers": dict((kv.split("=")[0], int(kv.split("=")[1])) for kv in m.group(4).split(",") if "=" in kv)}
+    rc2, err = _driver(ctx, "cases.txt", "model.txt", "model")
+    if rc2 != 0:
+        raise RuntimeError("model driver failed rc=%s: %s" % (rc2, err))
+    cases, impl, implx, model = (_lines(ctx, n) for n in ("cases.txt", "impl.txt", "implx.txt", "model.txt"))
+    if not (len(cases) == len(impl) == len(implx) == len(model)):
+        raise RuntimeError("line counts differ: cases=%d impl=%d implx=%d model=%d" % (len(cases), len(impl), len(implx), len(model)))
+    with open(os.path.join(ctx.workdir, "merged.txt"), "w") as f:
+        for c, i, x in zip(cases, impl, implx):
+            f.write("%s | %s | %s\n" % (c, i, x))
+    rc3, err = _driver(ctx, "merged.txt", "verdict.txt", "oracle")
+    if rc3 != 0:
+        raise RuntimeError("oracle driver failed rc=%s: %s" % (rc3, err))
+    verdict = _lines(ctx, "verdict.txt")
+    if len(verdict) != len(cases):
+        raise RuntimeError("verdict line count differs")
+    types = {}
+    diffs, fails, errors = [], [], []
+    per_type = {}
+    for k in range(len(cases)):
+        c = cases[k].split(" ")
+        if c[0] == "T":
+            types[c[1]] = c[2]
+        tdesc = types.get(c[1], "?") if len(c) > 1 else "?"
+        if c[0] == "C":
+            per_type[tdesc] = per_type.get(tdesc, 0) + 1
+        rec = {"type": tdesc, "case": cases[k], "impl": impl[k], "implx": implx[k], "model": model[k], "verdict": verdict[k]}
+        if c[0] == "X":
+            rec["verdict"] = "FAIL Key::compare is not a consistent order on a triple: " + impl[k]
+            fails.append(rec)
+            continue
+        if verdict[k].startswith("FAIL"):
+            fails.append(rec)
+        elif verdict[k] != "ok":
+            errors.append(rec)
+        if impl[k] != model[k]:
+            diffs.append(rec)
+    for n in ("cases.txt", "impl.txt", "implx.txt", "model.txt", "verdict.txt"):
+        shutil.copy(os.path.join(ctx.workdir, n), os.path.join(ctx.workdir, tag + "-" + n))
+    return {"stats": stats, "diffs": diffs, "fails": fails, "errors": errors, "per_type": per_type,
+            "samples": [{"case": cases[k], "impl_and_model": impl[k], "oracle": verdict[k]}
+                        for k in range(len(cases)) if cases[k].startswith("C ")][::max(1, len(cases) // 5)][:5]}
+
+
+def reason_class(verdict):
+    """A short stable key for a failure reason (first reason, values stripped)."""
+    r = verdict[5:].split(";")[0]
+    r = re.sub(r"(for [ab]=|value )\S+", r"\1_", r)
+    r = re.sub(r"[^A-Za-z0-9]+", "_", r)[:50].strip("_")
+    return r
+
+
+def report_fails(ctx, recs, origin):
+    """One violation per failure reason; the replay is the smallest failing pair with that reason."""
+    groups = {}
+    for rec in recs:
+        groups.setdefault(reason_class(rec["verdict"]), []).append(rec)
+    for rc, g in sorted(groups.items()):
+        rec = min(g, key=lambda r: (len(r["case"]), r["case"]))
+        c = rec["case"].split(" ")
+        types = sorted(set(r["type"] for r in g))
+        replay = {"type": rec["type"], "a": c[2] if len(c) > 2 else None, "b": c[3] if len(c) > 3 else None,
+                  "case": rec["case"], "impl": rec["impl"], "impl_extra": rec["implx"], "model_would_give": rec["model"],
+                  "reasons": rec["verdict"][5:], "found_by": origin,
+                  "failing_pairs_with_this_reason": len(g), "failing_types": types,
+                  "format": {"impl": "R enc(a) enc(b) cmp(a,b) cmp(b,a) separator(lo,hi) branch_separator(lo,hi) rt(a) rt(b)",
+                             "values": "u unit, T/F bool, c<hex> char, n<hex> unsigned, i[-]<hex> signed, s[scalars] str, x[hex] bytes, N none, S<v> some, L[..] array/tuple"},
+                  "replay_cmd": "./check C15 --replay <this file>"}
+        ctx.violation("c15-" + rc,
+                      "property fails on the implementation's output (%d pairs, types %s); smallest: type %s, %s: %s" % (
+                          len(g), ",".join(types)[:200], rec["type"], rec["case"][:300], rec["verdict"][5:][:600]),
+                      replay)
+
+
+def do_replay(ctx):
+    obj = json.load(open(ctx.replay))
+    cov = {"evaluations": 0, "distinct_nontrivial": 0, "rule": "replay of one recorded pair", "trusted_base": TRUSTED}
+    if not obj.get("a") or not obj.get("type"):
+        print("replay file has no concrete input (%s)" % obj.get("what", "")[:300])
+        return ctx.finish("proof", cov, s2_ok=False, s2_detail="replay of a no-failing-input-found record: " + str(obj.get("correspondence"))[:500])
+    ctx.proof_obligations()
+    res = run_batch(ctx, "replay", [0, obj["type"], "replay", obj["a"], obj["b"]])
+    cov["evaluations"] = res["stats"]["cases"]
+    cov["distinct_nontrivial"] = res["stats"]["distinct_nontrivial"]
+    for rec in res["fails"]:
+        print("replay: %s -> %s" % (rec["case"], rec["verdict"]))
+    report_fails(ctx, res["fails"], "replay")
+    for rec in res["diffs"]:
+        print("replay: model/impl differ on %s\n  impl : %s\n  model: %s" % (rec["case"], rec["impl"], rec["model"]))
+    if res["stats"]["cases"] == 0:
+        return ctx.finish("proof", cov, s2_ok=False, s2_detail="replay type %s is not among the harness types" % obj["type"])
+    return ctx.finish("proof", cov, s2_ok=not res["diffs"], s2_detail=[(d["case"], d["impl"], d["model"]) for d in res["diffs"][:3]])
 
 
 def run(ctx):
+    if getattr(ctx, "replay", None):
+        return do_replay(ctx)
+    t0 = time.time()
     s1 = ctx.proof_obligations()
-    n = 20000 if ctx.quick else 400000
-    rc, out = ctx.harness("c15", [n])
-    s2_ok, detail = True, None
-    cov = {"evaluations": 0, "distinct_nontrivial": 0}
-    if rc != 0:
-        s2_ok, detail = False, "harness failed rc=%s: %s" % (rc, (out or "")[-1500:])
-    else:
-        m = re.search(r"cases=(\d+) distinct_nontrivial=(\d+)", out)
-        cov["evaluations"], cov["distinct_nontrivial"] = int(m.group(1)), int(m.group(2))
-        rc2, err = ctx.driver("c15", "cases.txt", "model.txt")
-        if rc2 != 0:
-            s2_ok, detail = False, "model driver failed rc=%s: %s" % (rc2, err)
-        else:
-            nl, diffs = ctx.diff_lines("impl.txt", "model.txt")
-            cases = open(os.path.join(ctx.workdir, "cases.txt")).read().split("\n")
-            cov["samples"] = [{"case": cases[i], "impl_and_model": l} for i, l in
-                              enumerate(open(os.path.join(ctx.workdir, "impl.txt")).read().split("\n")[:3])]
-            for (ln, a, b) in diffs:
-                # a disagreement on a concrete pair IS a failing input: the model's outputs are the
-                # ones the theorems are about (value order, valid separator)
-                ctx.violation("c15-diff-" + cases[ln - 1].split(" ")[0],
-                              "implementation and proved model disagree on %r: impl=%r model=%r" % (cases[ln - 1], a, b),
-                              {"case": cases[ln - 1], "impl": a, "model": b,
-                               "format": "enc(a) enc(b) cmp(a,b) cmp(b,a) separator decode_ok"})
-    cov["rule"] = "pairs from structured generators (equal, adjacent, common prefix, extremes); non-trivial = distinct pair with a != b (and non-empty for bytes)"
+    print("C15: S1 proof obligations %s in %.1fs (build %.1fs; waits on the shared coq lock included)" % (
+        "ok" if s1["ok"] else "BROKEN: " + "; ".join(s1["failed"]), time.time() - t0, s1.get("build_s", 0)), flush=True)
+    cov = {"evaluations": 0, "distinct_nontrivial": 0, "trusted_base": TRUSTED}
+    s2_ok, detail, searched = True, None, None
+    batches = [("random", [300 if ctx.quick else 5000, "-", "random"])]
+    if not ctx.quick:
+        batches.append(("exhaustive", [0, "-", "exhaustive"]))
+    all_diffs, dist, per_type, samples = [], {}, {}, []
+    try:
+        for tag, args in batches:
+            t1 = time.time()
+            res = run_batch(ctx, tag, args)
+            print("C15: batch %s: %d pairs, %d model/impl differences, %d property failures, %.1fs" % (
+                tag, res["stats"]["cases"], len(res["diffs"]), len(res["fails"]), time.time() - t1), flush=True)
+            cov["evaluations"] += res["stats"]["cases"]
+            cov["distinct_nontrivial"] += res["stats"]["distinct_nontrivial"]
+            cov["key_types"] = max(cov.get("key_types", 0), res["stats"]["types"])
+            for k, v in res["stats"]["markers"].items():
+                dist[k] = dist.get(k, 0) + v
+            for k, v in res["per_type"].items():
+                per_type[k] = per_type.get(k, 0) + v
+            samples += res["samples"]
+            report_fails(ctx, res["fails"], tag)
+            if res["errors"]:
+                s2_ok, detail = False, "oracle could not evaluate %d cases, first: %s" % (len(res["errors"]), res["errors"][0])
+            all_diffs += res["diffs"]
+        if all_diffs:
+            # S2 differs. Per differing case the oracle has already decided whether the property fails there
+            # (then it is in `fails`). Otherwise search around the differing types with a bigger budget.
+            s2_ok = False
+            dtypes = sorted(set(d["type"] for d in all_diffs))
+            detail = {"differing_cases": len(all_diffs), "types": dtypes[:20],
+                      "first": [{"case": d["case"], "impl": d["impl"], "model": d["model"]} for d in all_diffs[:3]]}
+            if not ctx.violations:
+                n_search = 0
+                budget = 6000 if ctx.quick else 60000
+                for i, td in enumerate(dtypes[:8]):
+                    res = run_batch(ctx, "search%d" % i, [budget // min(len(dtypes), 8), td, "random"], seed=ctx.seed * 1000 + 17 + i)
+                    n_search += res["stats"]["cases"]
+                    cov["evaluations"] += res["stats"]["cases"]
+                    report_fails(ctx, res["fails"], "directed search on type " + td)
+                    if ctx.violations:
+                        break
+                searched = "directed search: %d more pairs of the differing types %s, oracle found %s" % (
+                    n_search, dtypes[:8], "a failing input" if ctx.violations else "no failing input")
+    except RuntimeError as e:
+        s2_ok, detail = False, str(e)
+    cov["rule"] = ("pairs (in clusters of three) from structured generators per key type: equal, adjacent, common prefix of every "
+                   "length, first difference inside a multi-byte character, empty, extremes, None/Some mixes, element-wise ties, "
+                   "long elements at the varint boundaries 254/65536; non-trivial = distinct pair with a != b that is of a variable "
+                   "width type (separator logic runs) or first differs after byte 0 or differs across the 0x80 bit (sign / UTF-8 lead)")
     cov["traces_validated_against_impl"] = cov["evaluations"]
-    cov["trusted_base"] = ["Coq 8.16.1 kernel + vm_compute", "tools/gen_consts.py", "harness/src/bin/c15.rs",
-                           "extraction (ExtrOcamlBasic only) + ocaml/c15_driver.ml"]
-    return ctx.finish("proof", cov, assumptions=["model covers the key types listed in coq/Types/KeyTypes.v"],
-                      s2_ok=s2_ok, s2_detail=detail)
+    cov["samples"] = samples[:6]
+    cov["input_distribution"] = {"path_markers": dist, "pairs_per_type": per_type}
+    cov["correspondence_differences"] = len(all_diffs)
+    return ctx.finish("proof", cov,
+                      assumptions=["uuid::Uuid is modelled as &[u8;16] (same codec) but not run: the harness is built without the `uuid` feature",
+                                   "composite encodings below 4 GiB (has_type), as redb's u32 offsets / varint lengths require",
+                                   "Key::compare on malformed encodings (where the Rust code panics) is outside the model"],
+                      s2_ok=s2_ok, s2_detail=detail, searched=searched)
